@@ -78,15 +78,36 @@ def run_func(entry, cols):
 
 
 def thresholds(prog):
-    """Constants that are compared against something in the program (region boundaries)."""
-    cmp_ops = {"lt", "le", "gt", "ge", "eq", "ne", "pymax", "pymin"}
-    used = set()
-    for n in prog["nodes"]:
+    """Region boundaries of the program: the values of CONSTANT sub-expressions (literal constants and everything computed
+    from constants only, e.g. sqrt(largest)/8 or safe_max*1e-6) that are compared against something or selected on."""
+    nodes = prog["nodes"]
+    cmp_ops = {"lt", "le", "gt", "ge", "eq", "ne", "pymax", "pymin", "npmax", "npmin"}
+    is_const = []
+    for n in nodes:
+        if n["op"] == "const":
+            is_const.append(True)
+        elif n["op"] in ("input", "bconst") or n["op"] in cmp_ops or n["op"] in ("and", "or", "not", "xor", "select", "isfinite"):
+            is_const.append(False)
+        else:
+            is_const.append(bool(n["args"]) and all(is_const[a] for a in n["args"]))
+    want = []
+    for n in nodes:
         if n["op"] in cmp_ops:
             for a in n["args"]:
-                if prog["nodes"][a]["op"] == "const":
-                    used.add(prog["nodes"][a]["imm"])
-    return sorted(used)
+                if is_const[a] and a not in want:
+                    want.append(a)
+    used = set(nodes[a]["imm"] for a in want if nodes[a]["op"] == "const")
+    derived = [a for a in want if nodes[a]["op"] != "const"]
+    if derived:
+        try:
+            nin = 1 + max([n["imm"] for n in nodes if n["op"] == "input"] or [0])
+            ft = fpx.NPF[prog["fmt"]]
+            vals = eval_prog_vec(dict(prog, outs=derived), [numpy.ones(1, dtype=ft) for _ in range(nin)])
+            for v in vals:
+                used.add(ir.canon_bits(ir.bits_of(v[0], prog["fmt"]), prog["fmt"]) if not numpy.isnan(v[0]) else 0)
+        except Exception:  # noqa: BLE001 - a constant sub-expression the vector interpreter cannot evaluate: literal constants only
+            pass
+    return sorted(t for t in used if isinstance(t, int))
 
 
 def eval_prog_vec(prog, cols):
